@@ -52,7 +52,8 @@ CHECKS = {
              "(thorough) real resources, plus every acyclic extra reference edge (diamonds, double include, double "
              "extends), loadURL and loadFile entry points, schema-then-config sessions; x every single fault point "
              "(opening resource j, the URL-stream read, every parser readline/read i of resource j, the k-th datatype "
-             "conversion, the i-th section datatype call) x 2 exception types.  After return or raise: every Resource "
+             "conversion, the i-th section datatype call) x 2 exception types + one that is not an Exception (a BaseException "
+             "subclass standing for KeyboardInterrupt / SystemExit).  After return or raise: every Resource "
              "handed out by createResource has closed == True and file is None and its file is closed; every urlopen "
              "stream is closed and was already closed when createResource was called; a following failure-free load "
              "gives the failure-free outcome. Plus: the public entry points (loadSchema, loadSchemaFile, loadConfig, loadConfigFile, an ExtendedConfigLoader object reloaded after a failed load) x command-line override sets (fault points between the open of a resource and its first read), and every %include back edge with a repeat / reload on the same loader.",
@@ -301,7 +302,8 @@ CHECKS = {
                   "alphabet x all define/env subsets; full-Unicode one-position sweep; "
                   "deviation-bounded sweep of a 200-char seed) against an independent reference scanner",
         text="Every string up to length 6 (quick) / 8 (thorough) over one representative per "
-             "character class, under every define/undefine subset of the names it references, is "
+             "character class, under every define/undefine subset of the names it references (every non-empty subset twice: values "
+             "full of '$' constructs, and every defined name holding the EMPTY string), is "
              "executed on the real substitute()/isname() and compared with a reference scanner "
              "written from the statement; plus all 1.1M code points at one position of five "
              "contexts (isname: four positions), a letter-class consistency oracle for every non-ASCII "
@@ -338,7 +340,9 @@ CHECKS = {
         text="For every enumerated text the schema-less loader accepts, str() of the result is loaded again "
              "and must give a structurally equal result whose str() is identical; texts with %define/%include "
              "must be refused; the alphabet holds '$$' in values and import names, '$(NAME)' against a fixed "
-             "environment, repeated keys, mixed case, nested and empty sections.  Exhaustive within the bounds; "
+             "environment, repeated keys, mixed case, nested and empty sections; every Unicode code point in 6 (8) contexts, among "
+             "them the start of a key line that is not the first line of the text but becomes the first line of its "
+             "serialisation.  Exhaustive within the bounds; "
              "the oracle needs no expected values.",
         note="Trusted: structural comparison in vz/props/c17.py. Known findings: headers ending in '/'; values "
              "with outer blanks (reachable through '$(NAME)' only).",
